@@ -169,11 +169,6 @@ func (r FileReplacer) Replace(d data.Data, cl Changelog) (*ast.File, error) {
 		file.Name.Name = r.Package
 	}
 
-	newImports, err := r.Imports.Replace(d, cl, file)
-	if err != nil {
-		return nil, err
-	}
-
 	for _, m := range fd.Matches {
 		v := reflect.Indirect(reflect.ValueOf(m.parent)).FieldByName(m.name)
 		if !v.IsValid() {
@@ -197,6 +192,14 @@ func (r FileReplacer) Replace(d data.Data, cl Changelog) (*ast.File, error) {
 		if give.Type().AssignableTo(v.Type()) {
 			v.Set(give)
 		}
+	}
+
+	// Imports are added only after the matched nodes have been replaced:
+	// adding an import can insert a declaration into file.Decls, which
+	// would invalidate the positions recorded for matches among them.
+	newImports, err := r.Imports.Replace(d, cl, file)
+	if err != nil {
+		return nil, err
 	}
 
 	err = r.Imports.Cleanup(d, file, newImports)
